@@ -3,7 +3,7 @@
     the chain contains the six validation steps ([has_tags _ tags6], decidable, re-checked on the chain go2v extracts).
     Decoding (base64, DEFLATE, XML, unknown SAMLEncoding) is the oracle [decode]; its codec part is C18. *)
 From Saml Require Import Base.Bytes Idp.FactTypes Gen.Facts Idp.Sso Proofs.SsoProofs Proofs.SsoAccept.
-From Saml Require Import Xml.SchemaTypes Xml.Schema Gen.Schema Xml.SamlSpec.
+From Saml Require Import Xml.SchemaTypes Xml.Schema Gen.Schema Xml.SamlSpec Codec.Base64 Core.WireCodec Core.DecodeVia Proofs.SsoCodec.
 
 Section C06.
 Variable e_form : option form.
@@ -40,6 +40,45 @@ Theorem C06_current_tree : has_tags sso_steps tags6 = true.
 Proof. vm_compute. reflexivity. Qed.
 End C06.
 
+(** decoding opened up one level: DecodeAuthNRequest is InflateAndDecode(encoding, true, message) followed by a parser
+    (the form is read off the source, [C06_decode_from_source]).  Then an accepted request has an empty or the DEFLATE
+    SAMLEncoding, its payload is valid base64, and what was parsed is the payload itself or its inflation, within the cap:
+    an unknown SAMLEncoding and an oversized payload are never accepted *)
+Section C06codec.
+Variable e_form : option form.
+Variable inflate : bytes -> option bytes.
+Variable cap : Z.
+Variable parse : bytes -> option authn.
+Variable lookup : bytes -> option sp_rec.
+Variable verify_redirect : sp_rec -> bytes -> bytes -> bytes -> bytes -> bool.
+Variable verify_post : sp_rec -> bytes -> bool.
+Variable instant_of : bytes -> instant.
+Variable now : Z.
+Variable create : create_args -> option bytes.
+Variable want_signed : bytes.
+Variable sso_locs : list bytes.
+Variable entity_id : bytes.
+Variable cert_ok : bool.
+Notation decode := (decode_via authn inflate cap parse).
+Notation handler := (sso_handler e_form decode lookup verify_redirect verify_post instant_of now create want_signed sso_locs entity_id cert_ok).
+
+Theorem C06_encoding : forall c st id, has_tags c tags6 = true -> handler c = Done st [RLogin id] ->
+  exists f a raw d, e_form = Some f /\ (f_enc f = [] \/ f_enc f = c_EncodingDeflate) /\
+    b64_decode (f_req f) = Some raw /\ parse d = Some a /\
+    ((f_enc f = [] /\ d = raw) \/ (f_enc f = c_EncodingDeflate /\ inflate raw = Some d /\ (Z.of_nat (length d) <= cap)%Z)).
+Proof. exact (sso_encoding e_form inflate cap parse lookup verify_redirect verify_post instant_of now create want_signed sso_locs entity_id cert_ok). Qed.
+
+Theorem C06_unknown_encoding_refused : forall c f st id, has_tags c tags6 = true -> e_form = Some f ->
+  f_enc f <> [] -> f_enc f <> c_EncodingDeflate -> handler c <> Done st [RLogin id].
+Proof. exact (sso_unknown_encoding_refused e_form inflate cap parse lookup verify_redirect verify_post instant_of now create want_signed sso_locs entity_id cert_ok). Qed.
+End C06codec.
+Theorem C06_decode_from_source :
+  decode_fn_ok decodeAuthNRequest_seq decodeAuthNRequest_calls = true /\
+  decode_fn_ok decodeLogoutRequest_seq decodeLogoutRequest_calls = true /\
+  sso_decode_call = [("arg0", "authRequestForm.Encoding"); ("arg1", "authRequestForm.AuthRequest")]%string /\
+  logout_decode_call = [("arg0", "logoutRequestForm.Encoding"); ("arg1", "logoutRequestForm.LogoutRequest")]%string.
+Proof. exact decode_functions_from_source. Qed.
+
 (** non-vacuity / sensitivity: without the content check the condition fails *)
 Example C06_mutant_rejected : has_tags (firstn 12 sso_steps ++ skipn 13 sso_steps) tags6 = false.
 Proof. vm_compute. reflexivity. Qed.
@@ -52,3 +91,6 @@ Print Assumptions C06_accept_implies.
 Print Assumptions C06_window.
 Print Assumptions C06_current_tree.
 Print Assumptions C06_schema.
+Print Assumptions C06_encoding.
+Print Assumptions C06_unknown_encoding_refused.
+Print Assumptions C06_decode_from_source.
